@@ -40,6 +40,15 @@ O2_Q = list(O2)
 # extra orientations of single classes: antiparallel to the Euler default det_pos_init, and
 # Parallel2dGeometry: "If ``det_pos_init == (0, 0)``, no rotation is performed."
 O3_ALL = dict(O3, **{'-y': (0, -1, 0)})
+# axes of nearly but not exactly unit length, generic direction ("axis : array-like ... Vector
+# defining the fixed rotation axis"; `axis` is documented as the NORMALIZED axis): 5-decimal
+# roundings of (1,1,1)/sqrt(3) (norm 1 - 5e-7), (0,1,-1)/sqrt(2) (norm 1 + 4.6e-6) and
+# (1,2,2)/3 (norm 1 + 2.2e-6)
+NEAR_UNIT = {'nu111': (0.57735, 0.57735, 0.57735), 'nu011': (0.0, 0.70711, -0.70711),
+             'nu122': (0.33333, 0.66667, 0.66667)}
+O3_ALL.update(NEAR_UNIT)
+# values that the quick tier visits as single deviations only (full lattice in thorough)
+SINGLE_ONLY = {'orient': set(NEAR_UNIT), 'init': {'matrix_round'}, 'pitch': {(0.0, -0.75)}}
 O2_ALL = dict(O2, zero=(0, 0))
 
 ANG = {'std': [0.0, PI / 2, PI, 2 * PI, PI / 6, 1.0, 2.5, 3 * PI / 4, 4.0, 5.5, 3 * PI / 2, 0.1],
@@ -61,7 +70,7 @@ P3 = (2.0, -1.0, 0.5)                            # explicit det_pos_init / src_t
 A3_FLAT = ((1.0, 2.0, 2.0), (0.0, 1.0, 1.0))     # explicit axes, not orthogonal (flat only)
 A3_PERP = ((1.0, 2.0, 2.0), (2.0, -2.0, 1.0))    # exactly perpendicular in floating point
 RADII = [(2.0, 3.0), (0.0, 3.0), (5.0, 0.0), (1.5, 1.5)]
-PITCH = [(0.0, 0.0), (2.0, 0.0), (-1.5, 0.5)]
+PITCH = [(0.0, 0.0), (2.0, 0.0), (-1.5, 0.5), (0.0, -0.75)]
 CURV_R = 3.0
 
 DET_AXES3 = {'std': ((1, 0, 0), (0, 0, 1)), 'swap': ((0, 0, 1), (1, 0, 0)),
@@ -366,6 +375,13 @@ def _matrix(cfg, three_d):
         M = 2.0 * M
     if cfg['init'] == 'matrix_mirror':
         M = M.dot(flip)
+    if cfg['init'] == 'matrix_round':
+        # orthogonal only up to ~1e-5: "allowed to include a constant scaling but shouldn't
+        # have strongly varying directional scaling"; axis and detector axes are documented
+        # as normalised
+        if three_d:
+            M = G.rot_axis((2.0, -1.0, 2.0), 0.9).dot(M)     # generic also for orient 'z'
+        M = np.round(M, 5)
     return M
 
 
@@ -785,7 +801,15 @@ def _observe(rec, g, model, angles, dmid, site, symptom, ctx, has_shift, ref=Non
     if ref is not None:
         exp = dict((k, v) for k, v in ref.items() if v is not None)
     answers = {}
+    symptom0 = symptom
     for name in sorted(exp):
+        # the trajectory (rotation, reference point, source) and the detector points are
+        # different clauses: a slice that moves the source is not the same defect as one that
+        # rebuilds the detector differently
+        symptom = symptom0
+        if symptom0 == 'slice_differs_from_parent' and name in (
+                'rotation_matrix', 'det_refpoint', 'src_position'):
+            symptom = 'slice_trajectory_differs_from_parent'
         fn = getattr(g, name)
         args = (A.copy(),) if name in ('rotation_matrix', 'det_refpoint', 'src_position') \
             else (A.copy(), darg)
@@ -1310,6 +1334,25 @@ def run_factory(cfg):
     # the returned geometry is that default configuration (checked at 3 grid angles)
     _observe(rec, g, model, angles[[0, len(angles) // 2, -1]], 0.5 * (dmin + dmax), site,
              'not_the_documented_default_geometry', 'factory result', False)
+    # slices of the factory result (helical: non-zero offset_along_axis and pitch) keep the
+    # parent's trajectory and detector points at the selected angles
+    if len(angles) >= 4:
+        for sname, idx in (('1:4', slice(1, 4)), ('::3', slice(None, None, 3))):
+            rec.evals += 1
+            try:
+                sub = g[idx]
+                sub_angles = np.asarray(sub.angles, dtype=float)
+                smid = np.atleast_1d(np.asarray(sub.det_params.mid_pt, dtype=float))
+            except Exception as e:           # noqa
+                rec.fail('%s.__getitem__' % type(g).__name__, 'raises:%s' % type(e).__name__,
+                         '%s result [%s] -> %r' % (fac, sname, e))
+                continue
+            if sub_angles.shape != angles[idx].shape or not _close(sub_angles, angles[idx]):
+                rec.fail('%s.__getitem__' % type(g).__name__, 'slice_partition_differs',
+                         '%s result [%s]: angles %s' % (fac, sname, sub_angles.tolist()[:5]))
+                continue
+            _observe(rec, sub, model, sub_angles[:6], smid, '%s.__getitem__' % type(g).__name__,
+                     'slice_differs_from_parent', '%s result [%s]' % (fac, sname), False)
     # "its size is chosen such that the whole space is covered with lines": every corner of the
     # volume must be hit by a ray that ends inside the detector, at every angle of the grid
     corners = np.array(list(itertools.product(*zip(lo, hi))), dtype=float)
@@ -1367,8 +1410,9 @@ def _geom_dims(cls, tier):
                                           'matrix_mirror']),
                 ('arange', ['std', 'wide'])] + common
     if cls == 'Parallel3dAxis':
-        return [('orient', o3), ('init', ['default', 'pos', 'axes', 'both', 'matrix',
-                                          'matrix_scaled', 'matrix_mirror']),
+        return [('orient', o3 + list(NEAR_UNIT)),
+                ('init', ['default', 'pos', 'axes', 'both', 'matrix', 'matrix_scaled',
+                          'matrix_mirror', 'matrix_round']),
                 ('arange', ['std', 'wide'])] + common
     if cls == 'Parallel3dEuler':
         o3e = ['y', '-y'] + [o for o in o3 if o != 'y']
@@ -1378,7 +1422,8 @@ def _geom_dims(cls, tier):
         return [('orient', o2), ('init', ['default', 'axes', 'matrix', 'matrix_mirror']),
                 ('radii', [list(r) for r in RADII]), ('curv', [None, 'circ']),
                 ('shift', ['none', 'src', 'det', 'both']), ('arange', ['std', 'wide'])] + common
-    return [('orient', o3), ('init', ['default', 'pos', 'axes', 'both', 'matrix', 'matrix_mirror']),
+    return [('orient', o3 + list(NEAR_UNIT)),
+            ('init', ['default', 'pos', 'axes', 'both', 'matrix', 'matrix_mirror', 'matrix_round']),
             ('radii', [list(r) for r in RADII]), ('curv', [None, 'cyl', 'cylinf', 'sph']),
             ('pitch', [list(p) for p in PITCH]), ('shift', ['none', 'src', 'det', 'both']),
             ('arange', ['std', 'wide'])] + common
@@ -1418,9 +1463,19 @@ def configs(tier):
     seen = set()
     per_level = {}
     for cls in ('Parallel2d', 'FanBeam', 'Parallel3dAxis', 'ConeBeam', 'Parallel3dEuler'):
-        for c in _deviations(_geom_dims(cls, tier), k):
+        dims = _geom_dims(cls, tier)
+        base = dict((n, v[0]) for n, v in dims)
+        for c in _deviations(dims, k):
             if c['init'].startswith('matrix') and c['arr']:
                 continue                       # frommatrix takes no separate vectors
+            if c['init'] == 'matrix_round' and c.get('curv') is not None:
+                continue      # curved detectors: "The vectors must ... be perpendicular"
+            if not thorough:
+                ndev = sum(1 for n in base if c[n] != base[n])
+                special = any((tuple(c[n]) if isinstance(c[n], list) else c[n]) in vals
+                              for n, vals in SINGLE_ONLY.items() if n in c)
+                if special and ndev > 1:
+                    continue
             c = dict(c, kind='geom', cls=cls)
             if not thorough and IS3D[cls]:
                 c['scal'] = 'half'
